@@ -49,10 +49,11 @@ Theorem C12_redefinition_propagates : forall w n supers slots ro co, Inv w ->
 Proof. exact redefinition_propagates. Qed.
 Print Assumptions C12_redefinition_propagates.
 
-(* (6) make-instance: for a ready class in an invariant state and guarded arguments, make-instance signals
-   an error iff some supplied initarg is declared by no class of the precedence list; otherwise every slot s
-   of the new instance is slot_S: missing if no class of the list names s, else the value of the supplied
-   initarg declared for s by any class of the list, else the initform of the most specific class that gives
+(* (6) make-instance: for a ready class in an invariant state and guarded arguments (no initarg supplied twice,
+   no two supplied initargs declared for the same slot), make-instance signals an error iff some supplied initarg
+   is declared by no class of the precedence list; otherwise every slot s of the new instance is slot_S: missing
+   if no class of the list names s, else the value of the supplied initarg declared for s by any class of the
+   list (one initarg fills every slot that declares it), else the initform of the most specific class that gives
    one, else unbound. *)
 Theorem C12_make_instance_spec : forall w n id c args, Inv w -> registered w n id c -> co_prec c <> [] ->
   g_make w n args = true ->
@@ -100,42 +101,31 @@ Print Assumptions C12_writer_writes.
 (* (10) typep, class-of and method applicability use one list, and it is the specification's: in an
    invariant state, for an instance whose class object is the registered one, class-of shows P, typep m is
    membership in P, and a call of ANY generic (accessor generics included) finds the methods of exactly the
-   classes of P that have one, most specific first, cache or no cache. *)
+   classes of P that have one, most specific first, cache or no cache.  (Since repo_fixes/C12-3 a class can lose
+   readiness while it has instances: it inherits a class that was redefined with a superclass not defined yet.
+   Then P = [] and typep / dispatch see the hierarchy hier_of [] = (t), until the missing class is defined.) *)
 Theorem C12_typep_classof_dispatch_agree : forall w i, Inv w -> CacheInv w -> current w i = true ->
   exists n P,
     (forall f l, lin (table w) f n = Some l -> P = n :: l ++ [SO; TT]) /\
     ((forall f, lin (table w) f n = None) -> P = []) /\
     snd (step w (OClassOf i) [] []) = ONames P /\
-    (forall m, snd (step w (OTypep i m) [] []) = OB (memb m P)) /\
-    (forall k, snd (call_gf w k i) = match applicable (get_gf w k) P with [] => None | l => Some l end).
+    (forall m, snd (step w (OTypep i m) [] []) = OB (memb m (hier_of P))) /\
+    (forall k, snd (call_gf w k i) = match applicable (get_gf w k) (hier_of P) with [] => None | l => Some l end).
 Proof. exact typep_classof_dispatch_agree. Qed.
 Print Assumptions C12_typep_classof_dispatch_agree.
 
-(* (11) outside the guard the faithful model violates S: the known findings *)
-Theorem C12_classchanged_order_refuted :
-  guard_ops w0 h_chain = true /\ guard_ops w0 w_bad_order = false /\
-  prec_of (run w0 w_bad_order) 2 = [2; 1; 0; SO; TT] /\ spec_prec (run w0 w_bad_order) 2 = [2; 1; 0; 3; SO; TT] /\
-  guard_ops w0 w_good_order = true /\ prec_of (run w0 w_good_order) 2 = [2; 1; 0; 3; SO; TT].
-Proof. exact classchanged_order_refuted. Qed.
-Print Assumptions C12_classchanged_order_refuted.
-Theorem C12_redefinition_forward_reference_refuted :
-  guard_ops w0 w_fwd_prefix = true /\ guard_ops w0 w_fwd = false /\
-  prec_of (run w0 w_fwd) 0 = [0; 3; SO; TT] /\
-  prec_of (run w0 w_fwd) 1 = [1; 0; SO; TT] /\ spec_prec (run w0 w_fwd) 1 = [1; 0; 3; SO; TT].
-Proof. exact redefinition_forward_reference_refuted. Qed.
-Print Assumptions C12_redefinition_forward_reference_refuted.
-Theorem C12_dispatch_cache_stale_refuted :
-  guard_ops w0 w_cache_prefix = true /\ guard_ops w0 w_cache = false /\
-  prec_of (run w0 w_cache) 1 = [1; 3; SO; TT] /\ spec_prec (run w0 w_cache) 1 = [1; 3; SO; TT] /\
-  skipn 9 (run_obs w0 w_cache) = [ONames [0]; OB false].
-Proof. exact dispatch_cache_stale_refuted. Qed.
-Print Assumptions C12_dispatch_cache_stale_refuted.
-Theorem C12_shared_initarg_refuted :
-  guard_ops w0 w_shared_prefix = true /\ guard_ops w0 w_shared = false /\
-  last (run_obs w0 w_shared) OErr = OInst [SUnbound; SVal 5; SMissing; SMissing] /\
-  map (slot_S (cs_of (run w0 w_shared_prefix)) [1; 0] [(0, 5%Z)]) [0; 1; 2; 3] = [SVal 5; SVal 5; SMissing; SMissing].
-Proof. exact shared_initarg_refuted. Qed.
-Print Assumptions C12_shared_initarg_refuted.
+(* (11) outside the guard the faithful model violates S: the known findings.  The first one is what is left of
+   the dispatch-cache defect after repo_fixes/C12-4: the cache is keyed by the class NAME, so a call with an instance
+   made before a redefinition (its class object is no longer the registered one: outside the guard) caches the old
+   methods under the name, and the next call with a new instance uses them. *)
+Theorem C12_dispatch_cache_class_name_refuted :
+  guard_ops w0 w_key_prefix = true /\ guard_ops w0 w_key = false /\
+  guard_ops w0 (w_key_prefix ++ [other (ODispatch 1)]) = true /\
+  last (run_obs w0 (w_key_prefix ++ [other (ODispatch 1)])) OErr = ONames [3] /\
+  prec_of (run w0 w_key) 1 = [1; 3; SO; TT] /\ spec_prec (run w0 w_key) 1 = [1; 3; SO; TT] /\
+  skipn 8 (run_obs w0 w_key) = [ONames [0]; ONames [0]; OB false].
+Proof. exact dispatch_cache_class_name_refuted. Qed.
+Print Assumptions C12_dispatch_cache_class_name_refuted.
 Theorem C12_two_initargs_one_slot_refuted :
   guard_ops w0 w_two_prefix = true /\ guard_ops w0 w_two = false /\
   last (run_obs w0 w_two) ODone = OErr /\
@@ -143,6 +133,92 @@ Theorem C12_two_initargs_one_slot_refuted :
   slot_S (cs_of (run w0 w_two_prefix)) [0] [(0, 1%Z); (1, 2%Z)] 0 = SVal 1.
 Proof. exact two_initargs_one_slot_refuted. Qed.
 Print Assumptions C12_two_initargs_one_slot_refuted.
+
+(* (11a) repaired (repo_fixes/C12-2): the order in which Go's map delivers the classes that inherit a redefined
+   class no longer matters.  Chain a <- b <- c, a redefined under z: with c delivered before b and with b before c
+   the history is inside the guard and c gets (c b a z standard-object t), the specification's list.  The second
+   theorem keeps the record of the unchanged code (merging in the delivered order leaves c stale when c comes first). *)
+Theorem C12_classchanged_any_order_example :
+  guard_ops w0 w_order_cb = true /\ guard_ops w0 w_order_bc = true /\
+  prec_of (run w0 w_order_cb) 2 = [2; 1; 0; 3; SO; TT] /\ prec_of (run w0 w_order_bc) 2 = [2; 1; 0; 3; SO; TT] /\
+  spec_prec (run w0 w_order_cb) 2 = [2; 1; 0; 3; SO; TT].
+Proof. exact classchanged_any_order_example. Qed.
+Print Assumptions C12_classchanged_any_order_example.
+Theorem C12_original_classchanged_order_refuted :
+  let pre := defclass_pre (run w0 h_chain) 0 [3] [] [4; 1; 2; 3] in
+  prec_of (class_changed_orig pre 0 [2; 1]) 2 = [2; 1; 0; SO; TT] /\
+  prec_of (class_changed_orig pre 0 [1; 2]) 2 = [2; 1; 0; 3; SO; TT] /\
+  prec_of (class_changed pre 0 [2; 1]) 2 = [2; 1; 0; 3; SO; TT].
+Proof. exact original_classchanged_order_refuted. Qed.
+Print Assumptions C12_original_classchanged_order_refuted.
+
+(* (11b) repaired (repo_fixes/C12-3): a redefinition whose new superclass is not defined yet.  a, b under a, an
+   instance of b, a redefined under the undefined z, then z defined: the whole history is inside the guard; in
+   between a and b are not ready (no precedence list, make-instance refuses, the old instance of b is a t only),
+   afterwards b has (b a z standard-object t) and the old instance of b is a z.  The second theorem keeps the
+   record of the unchanged code (the failed re-merge left b ready with the old list and an empty inherit list). *)
+Theorem C12_redefinition_forward_reference_example :
+  guard_ops w0 w_fwd = true /\
+  prec_of (run w0 w_fwd_mid) 0 = [] /\ prec_of (run w0 w_fwd_mid) 1 = [] /\ spec_prec (run w0 w_fwd_mid) 1 = [] /\
+  snd (step (run w0 w_fwd_mid) (OTypep 0 1) [] []) = OB false /\ snd (step (run w0 w_fwd_mid) (OMake 1 []) [] []) = OErr /\
+  prec_of (run w0 w_fwd) 0 = [0; 3; SO; TT] /\
+  prec_of (run w0 w_fwd) 1 = [1; 0; 3; SO; TT] /\ spec_prec (run w0 w_fwd) 1 = [1; 0; 3; SO; TT] /\
+  snd (step (run w0 w_fwd) (OTypep 0 3) [] []) = OB true.
+Proof. exact redefinition_forward_reference_example. Qed.
+Print Assumptions C12_redefinition_forward_reference_example.
+Theorem C12_original_redefinition_forward_reference_refuted :
+  let pre := defclass_pre (run w0 w_fwd_prefix) 0 [3] [] [2; 1] in
+  prec_of (merge_orig pre 1) 1 = [1; 0; SO; TT] /\ readyb (merge_orig pre 1) 1 = true /\ inherits (merge_orig pre 1) 1 0 = false /\
+  spec_prec pre 1 = [] /\ prec_of (class_changed pre 0 [1]) 1 = [].
+Proof. exact original_redefinition_forward_reference_refuted. Qed.
+Print Assumptions C12_original_redefinition_forward_reference_refuted.
+
+(* (11c) repaired (repo_fixes/C12-4): defclass drops the dispatch caches.  b under a, methods for a and z, a call
+   caches "b -> a's method", b is redefined under z: the history is inside the guard and a new instance of b gets
+   z's method.  The second theorem keeps the record of the unchanged code (same defclass without ClearCaches: a's
+   method, although typep denies the instance is an a). *)
+Theorem C12_dispatch_cache_cleared_example :
+  guard_ops w0 w_cache = true /\
+  prec_of (run w0 w_cache) 1 = [1; 3; SO; TT] /\ spec_prec (run w0 w_cache) 1 = [1; 3; SO; TT] /\
+  skipn 6 (run_obs w0 w_cache_prefix) = [ONames [0]] /\
+  skipn 9 (run_obs w0 w_cache) = [ONames [3]; OB false].
+Proof. exact dispatch_cache_cleared_example. Qed.
+Print Assumptions C12_dispatch_cache_cleared_example.
+Theorem C12_original_dispatch_cache_stale_refuted :
+  let w := run w0 w_cache_prefix in
+  let w1 := fst (step (defclass_merged w 1 [3] [] [0; 1; 3] []) (OMake 1 []) [] []) in
+  let w2 := fst (step (defclass w 1 [3] [] [0; 1; 3] []) (OMake 1 []) [] []) in
+  snd (step w1 (ODispatch 1) [] []) = ONames [0] /\ snd (step w1 (OTypep 1 0) [] []) = OB false /\
+  snd (step w2 (ODispatch 1) [] []) = ONames [3].
+Proof. exact original_dispatch_cache_stale_refuted. Qed.
+Print Assumptions C12_original_dispatch_cache_stale_refuted.
+
+(* (11d) repaired (repo_fixes/C12-5): an initarg declared for two slots fills both, whether the two slots come
+   from a class and its superclass or from one defclass form.  The second theorem keeps the record of the
+   unchanged code (one slot per initarg: the superclass's slot stayed unbound). *)
+Theorem C12_shared_initarg_example :
+  guard_ops w0 w_shared = true /\
+  skipn 3 (run_obs w0 w_shared) = [OInst [SVal 5; SVal 5; SMissing; SMissing]; OInst [SVal 6; SVal 6; SMissing; SMissing]] /\
+  map (slot_S (cs_of (run w0 w_shared_prefix)) [1; 0] [(0, 5%Z)]) [0; 1; 2; 3] = [SVal 5; SVal 5; SMissing; SMissing].
+Proof. exact shared_initarg_example. Qed.
+Print Assumptions C12_shared_initarg_example.
+Theorem C12_original_shared_initarg_refuted :
+  let w := run w0 w_shared_prefix in
+  match lookup (reg w) 1 with
+  | Some id => match get w id with
+               | Some c =>
+                   let v0 := fold_left (fun vs p => init_inh (slots_of (heap w) p) vs) (co_inherit c) (init_own (co_slots c) []) in
+                   match shared_args_orig (co_initargs c) [(0, 5%Z)] [] v0, shared_args (co_initargs c) [(0, 5%Z)] [] v0 with
+                   | Some (_, v1), Some (_, v2) =>
+                       map (slot_state v1) [0; 1] = [SUnbound; SVal 5] /\ map (slot_state v2) [0; 1] = [SVal 5; SVal 5]
+                   | _, _ => False
+                   end
+               | None => False
+               end
+  | None => False
+  end.
+Proof. exact original_shared_initarg_refuted. Qed.
+Print Assumptions C12_original_shared_initarg_refuted.
 
 (* (12) the hypotheses are satisfiable: a guarded history with forward references, a diamond, shadowed
    slots, initforms at two levels, a nil initform, a redefinition below which a class inherits, accessors and
